@@ -181,10 +181,17 @@ def intersection_area(p1: Sequence[Vec], p2: Sequence[Vec]) -> float:
     return abs(polygon_area(inter))
 
 
+def _local_footprints(b1, b2):
+    """Footprints of both boxes in coordinates centred on the first box (IoU is translation invariant; clipping far from
+    the origin would lose ~1e-16 * |coordinate| * size of absolute area, i.e. ~1e-8 of a small box at 1e4 m)."""
+    p1 = box_corners(0.0, 0.0, b1[3], b1[4], b1[5])
+    p2 = box_corners(b2[0] - b1[0], b2[1] - b1[1], b2[3], b2[4], b2[5])
+    return p1, p2
+
+
 def iou_bev(b1, b2) -> float:
     """b = (cx, cy, cz, yaw, w, l, h)."""
-    p1 = box_corners(b1[0], b1[1], b1[3], b1[4], b1[5])
-    p2 = box_corners(b2[0], b2[1], b2[3], b2[4], b2[5])
+    p1, p2 = _local_footprints(b1, b2)
     inter = intersection_area(p1, p2)
     a1 = b1[4] * b1[5]
     a2 = b2[4] * b2[5]
@@ -192,8 +199,7 @@ def iou_bev(b1, b2) -> float:
 
 
 def iou_3d(b1, b2) -> float:
-    p1 = box_corners(b1[0], b1[1], b1[3], b1[4], b1[5])
-    p2 = box_corners(b2[0], b2[1], b2[3], b2[4], b2[5])
+    p1, p2 = _local_footprints(b1, b2)
     inter = intersection_area(p1, p2)
     zmin = max(b1[2] - b1[6] / 2, b2[2] - b2[6] / 2)
     zmax = min(b1[2] + b1[6] / 2, b2[2] + b2[6] / 2)
